@@ -74,6 +74,11 @@ where
             return Poll::Ready(Err(error.clone()));
         };
 
+        // Register the waker before looking at the error: an error stored (and signalled) by a
+        // stream task between the check and a later registration would otherwise never wake
+        // this task.
+        self.waker().register(cx.waker());
+
         // Check if the connection is in error state
         if let Some(err) = self.get_conn_error() {
             let err = self.close_if_needed(err);
@@ -82,7 +87,6 @@ where
         }
         #[cfg(hyperium_h3_verif)]
         crate::verif_hooks::preempt("driver:between_error_check_and_waker_registration");
-        self.waker().register(cx.waker());
         Poll::Pending
     }
 
